@@ -388,8 +388,10 @@ def _task(repo, name, cfgs, seed, per_item, exe, deep, res):
                     "how": "make connections one after the other with the given negotiated minor versions; the side(s) named by `scenario` pass the SAME Settings object to every RMCClient; compare with a fresh pair with fresh Settings"}
             tag("seq:%s:minor%d:%s" % (pl["scenario"], pl["minor"], "same" if got == twin and not pl["changed"] else "DIFFERS"))
             if got["hdr"] != (want_hdr, want_hdr):
-                diff(key, "connection %d of the sequence %r (minor version %d) runs with struct_header=%r (client, server); struct_header_auto says %d" % (
-                    pl["step"], pl["minors"], pl["minor"], got["hdr"], want_hdr), dict(base, observed=got["hdr"]))
+                bad = [(x["method"], x["flow"], y["flow"]) for x, y in zip(got["calls"], twin["calls"]) if x != y]
+                diff(key, "connection %d of the sequence %r (%s, minor version %d) runs with struct_header=%r (client, server); struct_header_auto says %d; calls that no longer behave like on a fresh pair (method, flow here, flow fresh): %r" % (
+                    pl["step"], pl["minors"], pl["scenario"], pl["minor"], got["hdr"], want_hdr, bad[:3]),
+                     dict(base, observed=got["hdr"], shared=[{k: str(x[k])[:800] for k in x} for x in got["calls"]], fresh=[{k: str(y[k])[:800] for k in y} for y in twin["calls"]]))
             elif got != twin:
                 d = next((i for i, (x, y) in enumerate(zip(got["calls"], twin["calls"])) if x != y), 0)
                 x, y = got["calls"][d], twin["calls"][d]
